@@ -173,3 +173,176 @@ fn c07_balance_sapling_1x1() {
         }
     }
 }
+
+
+// ---------------------------------------------------------------------------------------------
+// More shapes of the same balance function (each is one harness instance; they run in parallel).
+// ---------------------------------------------------------------------------------------------
+use zcash_client_backend::fees::TransparentChangePolicy;
+use zcash_primitives::transaction::fees::transparent as tfees;
+use zcash_protocol::memo::MemoBytes;
+use zcash_transparent::address::Script;
+use zcash_transparent::bundle::OutPoint;
+
+#[derive(Debug)]
+struct TIn {
+    outpoint: OutPoint,
+    coin: TxOut,
+}
+impl tfees::InputView for TIn {
+    fn outpoint(&self) -> &OutPoint {
+        &self.outpoint
+    }
+    fn coin(&self) -> &TxOut {
+        &self.coin
+    }
+    fn serialized_size(&self) -> InputSize {
+        InputSize::STANDARD_P2PKH
+    }
+}
+/// A transparent output that reports the standard P2PKH output size (34 bytes) without carrying
+/// a 25-byte script (real scripts made the harness exceed 16 GB).
+#[derive(Debug)]
+struct TOut {
+    value: Zatoshis,
+    script: Script,
+}
+impl tfees::OutputView for TOut {
+    fn value(&self) -> Zatoshis {
+        self.value
+    }
+    fn script_pubkey(&self) -> &Script {
+        &self.script
+    }
+    fn serialized_size(&self) -> usize {
+        34
+    }
+}
+fn empty_script() -> Script {
+    Script(zcash_script::script::Code(Vec::new()))
+}
+
+//@ {"p":"C07","tier":"quick","clause":"fully transparent transaction, one P2PKH input and TWO P2PKH-sized outputs, transparent change allowed: on Ok inputs == outputs + change + fee; the fee equals the ZIP 317 fee of the FINAL shape - 15000 when a (third) change output is emitted, 10000 when there is none; change is a single transparent output, never zero-valued; InsufficientFunds is honest","bounds":"1 transparent input, 2 transparent outputs, every value in [0, MAX_MONEY]; dust policy symbolic; TransparentChangePolicy::TransparentChangeAllowed; target/anchor heights symbolic","covers":3,"t":3600,"unwind":5}
+#[kani::proof]
+#[kani::unwind(5)]
+fn c07_balance_transparent_1x2() {
+    let (policy, action, thr) = any_dust_policy();
+    let strat = SingleOutputChangeStrategy::<_, Infallible>::new(Zip317FeeRule::standard(), None, ShieldedPool::Sapling, policy)
+        .with_transparent_change_policy(TransparentChangePolicy::TransparentChangeAllowed);
+    let (vin, o1, o2) = (any_zat(), any_zat(), any_zat());
+    let th: u32 = kani::any();
+    let ah: u32 = kani::any();
+    let tin = [TIn { outpoint: OutPoint::new([7u8; 32], 0), coin: TxOut::new(vin, empty_script()) }];
+    let touts = [TOut { value: o1, script: empty_script() }, TOut { value: o2, script: empty_script() }];
+    let r = strat.compute_balance::<_, u32>(
+        &Network::TestNetwork,
+        TargetHeight::from(BlockHeight::from_u32(th)),
+        BlockHeight::from_u32(ah),
+        &PoolMigrationParams::new(AnchorRetentionInterval::ZIP_318),
+        &tin[..],
+        &touts[..],
+        &sapling_fees::EmptyBundleView,
+        &orchard_fees::EmptyBundleView,
+        &orchard_fees::EmptyBundleView,
+        None,
+        &(),
+    );
+    let (i, o) = (vin.into_u64() as u128, o1.into_u64() as u128 + o2.into_u64() as u128);
+    let dust_thr = thr.unwrap_or(5000) as u128;
+    match r {
+        Ok(bal) => {
+            let fee = bal.fee_required().into_u64() as u128;
+            let ch = bal.proposed_change();
+            assert!(ch.len() <= 1);
+            let change: u128 = if ch.len() == 1 { ch[0].value().into_u64() as u128 } else { 0 };
+            assert!(i == o + change + fee);
+            if ch.len() == 1 {
+                // three outputs => max(1 input, 3 outputs) = 3 logical actions
+                assert!(ch[0].output_pool() == PoolType::TRANSPARENT);
+                assert!(change > 0);
+                assert!(fee == 15_000);
+                if change < dust_thr {
+                    assert!(action != DustAction::Reject);
+                }
+            } else {
+                // no change output: the 2-output shape costs max(2, 2) * 5000, unless dust was folded
+                assert!(fee >= 10_000);
+                if fee != 10_000 && fee != 15_000 {
+                    assert!(action == DustAction::AddDustToFee);
+                }
+            }
+            kani::cover!(ch.len() == 1 && change == 1);
+            kani::cover!(ch.len() == 0 && fee == 10_000);
+            core::mem::forget(bal);
+        }
+        Err(ChangeError::InsufficientFunds { available, required }) => {
+            let (av, rq) = (available.into_u64() as u128, required.into_u64() as u128);
+            assert!(av == i && av < rq);
+            kani::cover!(i >= o + 10_000);
+        }
+        Err(e) => {
+            assert!(matches!(e, ChangeError::StrategyError(_) | ChangeError::DustInputs { .. }));
+            core::mem::forget(e);
+        }
+    }
+}
+
+//@ {"p":"C07","tier":"quick","clause":"Sapling 1 input / 1 output WITH a change memo: a change output is always present (it carries the memo); inputs == outputs + change + fee exactly, also when dust is folded into the fee (then the change output is zero-valued and fee - 10000 is the folded dust, below the threshold)","bounds":"1 Sapling input, 1 Sapling output, every value in [0, MAX_MONEY]; dust action and threshold symbolic; empty change memo; heights symbolic","covers":3,"t":3600,"unwind":5}
+#[kani::proof]
+#[kani::unwind(5)]
+fn c07_balance_sapling_1x1_memo() {
+    let (policy, action, thr) = any_dust_policy();
+    let strat = SingleOutputChangeStrategy::<_, Infallible>::new(
+        Zip317FeeRule::standard(),
+        Some(MemoBytes::empty()),
+        ShieldedPool::Sapling,
+        policy,
+    );
+    let (vin, vout) = (any_zat(), any_zat());
+    let th: u32 = kani::any();
+    let ah: u32 = kani::any();
+    let r = strat.compute_balance(
+        &Network::TestNetwork,
+        TargetHeight::from(BlockHeight::from_u32(th)),
+        BlockHeight::from_u32(ah),
+        &PoolMigrationParams::new(AnchorRetentionInterval::ZIP_318),
+        &[] as &[Infallible],
+        &[] as &[TxOut],
+        &(sapling::builder::BundleType::DEFAULT, &[SapIn(vin)][..], &[vout][..]),
+        &orchard_fees::EmptyBundleView,
+        &orchard_fees::EmptyBundleView,
+        None,
+        &(),
+    );
+    let (i, o) = (vin.into_u64() as u128, vout.into_u64() as u128);
+    let dust_thr = thr.unwrap_or(5000) as u128;
+    match r {
+        Ok(bal) => {
+            let fee = bal.fee_required().into_u64() as u128;
+            let ch = bal.proposed_change();
+            assert!(ch.len() == 1); // the memo needs an output to live in
+            let change = ch[0].value().into_u64() as u128;
+            assert!(ch[0].memo().is_some());
+            assert!(i == o + change + fee);
+            assert!(fee >= 10_000);
+            if fee != 10_000 {
+                assert!(action == DustAction::AddDustToFee && change == 0 && fee - 10_000 < dust_thr);
+            }
+            if change > 0 && change < dust_thr {
+                assert!(action == DustAction::AllowDustChange || (action == DustAction::AddDustToFee && fee == 10_000));
+            }
+            kani::cover!(fee > 10_000);
+            kani::cover!(change == 0 && fee == 10_000);
+            kani::cover!(change > dust_thr);
+            core::mem::forget(bal);
+        }
+        Err(ChangeError::InsufficientFunds { available, required }) => {
+            let (av, rq) = (available.into_u64() as u128, required.into_u64() as u128);
+            assert!(av == i && av < rq);
+        }
+        Err(e) => {
+            assert!(matches!(e, ChangeError::StrategyError(_)));
+            core::mem::forget(e);
+        }
+    }
+}
